@@ -4,6 +4,7 @@ open SamVerif.Fmt
 #print axioms roundtrip_expr_counterexample
 #print axioms shortcut_regroups_same_operator
 #print axioms former_witnesses_roundtrip
+#print axioms member_name_before_lt
 #print axioms roundtrip_expr_partial
 #print axioms parseFuel_stable
 #print axioms paren_insensitive
